@@ -356,6 +356,29 @@ Proof.
     intros x [<-|Hx]; [lia|auto].
 Qed.
 
+Lemma shift_bounded lo d k u : bounded k u -> lo <= k -> bounded (k + d) (shift_term lo d u).
+Proof.
+  intros B L. induction u as [a|z|q|w|f args IH] using term_ind'; cbn [shift_term]; try (intros v Hv; discriminate).
+  - assert (Lw: w < k) by (apply B; simpl; apply Nat.eqb_refl).
+    destruct (Nat.leb lo w); apply bounded_var; lia.
+  - apply bounded_fun. apply bounded_fun in B. apply Forall_forall. intros y Hy.
+    apply in_map_iff in Hy as [x [<- Hx]].
+    exact (proj1 (Forall_forall _ _) IH x Hx (proj1 (Forall_forall _ _) B x Hx)).
+Qed.
+
+Lemma collect_bounded lo t xs : forall base, lo <= base ->
+  (forall x, In x xs -> lo <= nxt x /\ bounded (nxt x) (den_fast (sto x) t)) ->
+  base <= snd (collect lo base t xs) /\ Forall (bounded (snd (collect lo base t xs))) (fst (collect lo base t xs)).
+Proof.
+  induction xs as [|x r IH]; intros base L H; cbn [collect]; [split; [cbn; lia|constructor]|].
+  destruct (H x (or_introl eq_refl)) as [Lx Bx].
+  assert (L2: lo <= base + (nxt x - lo)) by lia.
+  destruct (IH (base + (nxt x - lo)) L2 (fun y Hy => H y (or_intror Hy))) as [A B].
+  destruct (collect lo (base + (nxt x - lo)) t r) as [es b]. cbn [fst snd] in *.
+  split; [lia|]. constructor; [|exact B].
+  eapply bounded_mono; [|apply (shift_bounded lo (base - lo) (nxt x)); auto]. lia.
+Qed.
+
 Lemma builtin_ok name args s r : inv s -> Forall (bounded (nxt s)) args ->
   builtin call name args s = Some r -> forall x, In x (fst r) -> inv x /\ grows s x.
 Proof.
@@ -380,14 +403,16 @@ Proof.
   pose proof (call_goal_ok g [] s Is Bg (Forall_nil _)) as HG.
   destruct (call_goal call g [] s) as [xs e]. cbn [fst] in HG. destruct e; [contradiction|].
   destruct (max_nxt_ge s xs) as [M1 M2].
-  set (s1 := {| sto := sto s; nxt := max_nxt s xs |}) in *.
-  assert (I1: inv s1) by (unfold inv, s1; cbn [sto nxt]; eapply store_bounded_mono; [exact M1|exact Is]).
-  assert (G1: grows s s1) by (split; cbn [sto nxt]; [exact M1|apply ext_refl]).
-  assert (BL: bounded (nxt s1) (mk_list (map (fun x0 : st => den_fast (sto x0) t) xs))).
-  { apply mk_list_bounded. apply Forall_forall. intros u Hu. apply in_map_iff in Hu as [y [<- Hy]].
-    destruct (HG y Hy) as [Iy Gy]. eapply bounded_mono; [apply (M2 y Hy)|].
+  assert (HC: forall y, In y xs -> nxt s <= nxt y /\ bounded (nxt y) (den_fast (sto y) t)).
+  { intros y Hy. destruct (HG y Hy) as [Iy Gy]. split; [apply Gy|].
     apply den_fast_bounded; [exact Iy|]. eapply bounded_mono; [apply Gy|exact Bt]. }
-  destruct (unify_st_ok s1 l _ x I1 ltac:(eapply bounded_mono; [exact M1|exact Bl]) BL Hx) as [Ix Gx].
+  destruct (collect_bounded (nxt s) t xs (max_nxt s xs) M1 HC) as [C1 C2].
+  destruct (collect (nxt s) (max_nxt s xs) t xs) as [es b]. cbn [fst snd] in *.
+  set (s1 := {| sto := sto s; nxt := b |}) in *.
+  assert (I1: inv s1) by (unfold inv, s1; cbn [sto nxt]; eapply store_bounded_mono; [|exact Is]; lia).
+  assert (G1: grows s s1) by (unfold s1; split; cbn [sto nxt]; [lia|apply ext_refl]).
+  assert (BL: bounded (nxt s1) (mk_list es)) by (apply mk_list_bounded; exact C2).
+  destruct (unify_st_ok s1 l _ x I1 ltac:(eapply bounded_mono; [|exact Bl]; unfold s1; cbn [nxt]; lia) BL Hx) as [Ix Gx].
   split; [exact Ix|eapply grows_trans; eauto].
 Qed.
 End WithCall.
